@@ -16,14 +16,14 @@ import (
 
 var (
 	c20Repos = []string{"crossplane/provider-aws", "crossplane-contrib/provider-helm", "upbound/provider-gcp", "function-patch-and-transform",
-		"crossplane/provider-aws", "a/b", "a-b", "org/team/very-long-repository-name-that-exceeds-the-sixty-three-characters-of-a-dns-label"}
+		"crossplane/provider-aws", "a/b", "a-b", "org/app-latest", "org/team/very-long-repository-name-that-exceeds-the-sixty-three-characters-of-a-dns-label"}
 	c20Regs   = []string{"", "", "xpkg.upbound.io", "xpkg.upbound.io", "registry.example.com:5000", "docker.io", "index.docker.io", "localhost", "ghcr.io"}
 	c20Tags   = []string{"", ":v1.2.3", ":latest", ":v0.1.0-rc.1", "@sha256:" + strings.Repeat("a1", 32), ":v1.2.3@sha256:" + strings.Repeat("0f", 32)}
 	c20BadImg = []string{"", "UPPER/Case:v1", "has space:v1", "foo:bad tag!", "x/y@sha256:short", "preloaded package"}
 )
 
 func c20GenImg(r *Rng) string {
-	if r.Chance(1, 14) {
+	if r.Chance(1, 40) {
 		return Pick(r, c20BadImg)
 	}
 	reg := Pick(r, c20Regs)
@@ -70,8 +70,8 @@ func c20GenVersions(r *Rng, crd string) []c20Ver {
 		return []c20Ver{{N: "v1", S: true}, {N: old, S: false}}
 	case 3:
 		return []c20Ver{{N: old, S: true}, {N: "v1", S: false}}
-	case 4:
-		return []c20Ver{{N: old, S: false}, {N: "v1", S: false}} // no storage version at all
+	case 4: // (a CRD without any storage version is rejected by a real API server: not generated)
+		return []c20Ver{{N: "v1", S: true}, {N: "v1alpha2", S: false}}
 	}
 	return []c20Ver{{N: "v2", S: true}, {N: "v1", S: false}, {N: old, S: false}}
 }
@@ -89,9 +89,9 @@ func c20GenCrdDir(r *Rng, webhook bool) c20Dir {
 		if !webhook && r.Chance(9, 10) {
 			conv = false
 		}
-		d.Objs = append(d.Objs, c20FileObj{T: "crd", Crd: &c20CrdFile{Name: nm, Content: 1 + r.Intn(3), Versions: c20GenVersions(r, nm), Conv: conv, WH: r.Intn(3)}})
+		d.Objs = append(d.Objs, c20FileObj{T: "crd", Crd: &c20CrdFile{Name: nm, Content: 1 + r.Intn(3), Versions: c20GenVersions(r, nm), Conv: conv, WH: 2 * r.Intn(2)}})
 	}
-	if r.Chance(1, 16) {
+	if r.Chance(1, 30) {
 		o := c20FileObj{T: "other"}
 		if r.Bool() {
 			o = c20FileObj{T: "whc", Whc: &c20WhcFile{Kind: "V", Name: "stray", Hooks: []string{}}}
@@ -99,7 +99,7 @@ func c20GenCrdDir(r *Rng, webhook bool) c20Dir {
 		at := r.Intn(len(d.Objs) + 1)
 		d.Objs = append(d.Objs[:at], append([]c20FileObj{o}, d.Objs[at:]...)...)
 	}
-	d.ParseErr = r.Chance(1, 30)
+	d.ParseErr = r.Chance(1, 50)
 	return d
 }
 
@@ -111,12 +111,16 @@ func c20GenWhcDir(r *Rng) c20Dir {
 		if r.Chance(1, 3) {
 			f.Kind = "M"
 		}
-		for j, m := 0, r.Intn(3); j < m; j++ {
+		m := 1 + r.Intn(2)
+		if r.Chance(1, 12) {
+			m = 0
+		}
+		for j := 0; j < m; j++ {
 			f.Hooks = append(f.Hooks, fmt.Sprintf("h%d.crossplane.io", j))
 		}
 		d.Objs = append(d.Objs, c20FileObj{T: "whc", Whc: f})
 	}
-	if r.Chance(1, 16) {
+	if r.Chance(1, 30) {
 		o := c20FileObj{T: "other"}
 		if r.Bool() {
 			o = c20FileObj{T: "crd", Crd: &c20CrdFile{Name: "stray.example.org", Content: 1, Versions: []c20Ver{{N: "v1", S: true}}}}
@@ -124,7 +128,7 @@ func c20GenWhcDir(r *Rng) c20Dir {
 		at := r.Intn(len(d.Objs) + 1)
 		d.Objs = append(d.Objs[:at], append([]c20FileObj{o}, d.Objs[at:]...)...)
 	}
-	d.ParseErr = r.Chance(1, 30)
+	d.ParseErr = r.Chance(1, 50)
 	return d
 }
 
@@ -205,6 +209,7 @@ func c20GenStored(r *Rng, s *c20Scn, steps []c20Step) {
 		p = 3
 	}
 	secSeen := map[string]bool{}
+	names := map[string]bool{}
 	kp := 10
 	for _, stp := range steps {
 		switch stp.T {
@@ -328,7 +333,6 @@ func c20GenStored(r *Rng, s *c20Scn, steps []c20Step) {
 				st.DRC = &n
 			}
 		case "install":
-			names := map[string]bool{}
 			add := func(kind, img string) {
 				nm := c20DefaultName(img)
 				if r.Chance(1, 2) {
@@ -354,12 +358,12 @@ func c20GenStored(r *Rng, s *c20Scn, steps []c20Step) {
 					}
 					// the same repository, possibly at another version / host
 					img := im.Img
-					if o := c20ImgObsOf(img); o.OK {
+					if ref := c20Parse(img); ref != nil {
+						base := c20WrittenName(img)
 						switch r.Intn(5) {
 						case 0, 1, 2:
-							img = o.Src + Pick(r, c20Tags)
+							img = base + Pick(r, c20Tags)
 						case 3:
-							ref := c20Parse(img)
 							img = Pick(r, c20Regs[2:]) + "/" + ref.Repo + Pick(r, c20Tags)
 						}
 					}
